@@ -294,6 +294,7 @@ func TestWorker(t *testing.T) {
 	if err := json.Unmarshal([]byte(js), &job); err != nil {
 		t.Fatalf("bad VERIF_JOB: %v", err)
 	}
+	writerNoBlock = job.NoBlockWriter
 	outF, err := os.Create(os.Getenv("VERIF_OUT"))
 	if err != nil {
 		t.Fatal(err)
@@ -332,6 +333,7 @@ func TestWorker(t *testing.T) {
 			t.Fatalf("bad replay file: %v", err)
 		}
 		rc := rf.Case
+		writerNoBlock = writerNoBlock || rc.NoBlockWriter
 		announce(rc)
 		wd := time.AfterFunc(60*time.Second, func() {
 			buf := make([]byte, 1<<22)
@@ -365,6 +367,7 @@ func TestWorker(t *testing.T) {
 		run := job.FirstRun + uint64(job.Worker) + uint64(k)*uint64(job.Workers)
 		seed := mixSeed(job.Master, job.Property, run)
 		rc, rng := generateCase(job.Property, job.Tier, run, seed)
+		rc.NoBlockWriter = writerNoBlock
 		announce(rc)
 		// watchdog on the real clock (this goroutine is outside every bubble):
 		// a run that neither finishes nor becomes quiescent is dumped and ends
